@@ -22,7 +22,8 @@ RULE = ("cases = (a) a 6-statement script (table with inline and table-level ref
         "excludes as an undelimited column name x 3 spellings x first/middle/last x single-line/multi-line x both settings "
         "(exhaustive); (c) every grammar keyword x 3 spellings as undelimited table, schema, constraint, index, sequence, type, "
         "referenced-table and ALTER-target name (exhaustive; the words that fail on the pinned tree are listed known findings). "
-        "Non-trivial = at least one identifier is delimited, mixed-case or keyword-shaped; distinct = distinct (DDL, setting).")
+        "Non-trivial = at least one identifier is delimited, mixed-case or keyword-shaped; distinct = distinct (DDL, setting)."
+        " Added after seeded defects: keyword-shaped column names re-used in 10 key/reference/index/ALTER list positions, names that merely start with a keyword (every keyword x 4 suffixes x 7 positions), names with # $ @, ARRAY-prefixed names (exact-spelling known findings), normalize_names handed over through parse_from_file.")
 ASSUMPTIONS = ["each identifier is unique within its script (so an identifier-aware textual strip is unambiguous)",
                "an identifier keeps the same spelling everywhere it is used in one script"]
 MIN_EVENTS = {"statements": 100, "run_return": 100}
